@@ -1,5 +1,7 @@
 import Xandikos.Driver.StoreDriver
 import Xandikos.Driver.PyDriver
+import Xandikos.Driver.HttpDriver
+import Xandikos.Driver.PureDriver
 
 partial def loop {σ : Type} (h : IO.FS.Stream) (out : IO.FS.Stream) (st : σ)
     (step : σ → String → σ × String) : IO Unit := do
@@ -14,6 +16,8 @@ def main (args : List String) : IO UInt32 := do
   let stdout ← IO.getStdout
   match args with
   | ["store"] => loop stdin stdout ({} : Xandikos.StoreDriver.DState) Xandikos.StoreDriver.step; return 0
+  | ["http"] => loop stdin stdout ({} : Xandikos.HttpDriver.HState) Xandikos.HttpDriver.step; return 0
+  | ["pure"] => loop stdin stdout () Xandikos.PureDriver.step; return 0
   | ["pyurl"] => loop stdin stdout () Xandikos.PyDriver.urlStep; return 0
   | ["pyini"] => loop stdin stdout () Xandikos.PyDriver.iniStep; return 0
   | ["pypath"] => loop stdin stdout () Xandikos.PyDriver.pathStep; return 0
